@@ -19,8 +19,10 @@
 //     while its attempt was still connecting never becomes the stream's input,
 //   - every API answer (error code, session id) says what happened.
 //
-// push-rules: 1-3 stub targets, some refusing their first attempts, one held
-// back until the publisher has left; RTMP publishers with URL parameters of
+// push-rules: 1-3 stub targets, some refusing their first attempts, some
+// holding the publish answer until the harness releases it (after the
+// publisher has left, or after the next publisher has been accepted + ticks:
+// never a second connection to a target whose attempt is still unanswered); RTMP publishers with URL parameters of
 // 0-4000 bytes and RTSP publishers, one or two incarnations.  Exactly one
 // session per target, refused targets re-attempted on later ticks, the
 // publish command carries stream?params byte for byte, the target receives
